@@ -5,8 +5,11 @@
    independently of the code under test; the crypto oracles answer only the exact query the
    harness recorded, so a model that asks something else is seen as a mismatch. *)
 From Hy Require Import lib.Harness model.C17_Sniff.
+From Hy Require gen.ParamsC06 model.C06_Relay model.C17_Putback.
 From Coq Require Import ZArith.
 Local Open Scope N_scope.
+Module R := Hy.model.C06_Relay.
+Module P := Hy.model.C17_Putback.
 
 (* offsets, lengths and buffer sizes are written as N in the cases files (cheap literals) *)
 Definition sub (l : list byte) (off len : N) : list byte := firstn (N.to_nat len) (skipn (N.to_nat off) l).
@@ -78,7 +81,13 @@ Inductive case :=
 (* a history of several hooked streams on one Sniffer; the expected values of every stream were
    observed when its replay was looked at, i.e. AFTER other streams had been sniffed: in the model
    (model/C17_Own.v, fresh cell per call) that is still what sniff_tcp returned *)
-| CSeq (streams : list case).
+| CSeq (streams : list case)
+(* the server side (model/C17_Putback.v), observed end to end on a real client + server: the hook took the first putn bytes
+   of `sent` off the stream and handed them back; `writes` are the sizes of the target connection's Write calls in
+   order, `uplogs` the tx arguments of the LogTraffic calls, stx StreamStats.Tx, gotn/gotdg length and digest of what
+   the target held when the server had torn the relay down after the client's EOF (gotdg = None: the harness found it
+   to be the first gotn bytes of `sent`, compared as such here; the digest costs 40 us per byte) *)
+| CSrv (logged : bool) (sent : list byte) (putn : N) (writes uplogs : list N) (stx gotn : N) (gotdg : option N).
 
 Definition hp_of (q : option (N * list byte * list byte * list byte))
   : N -> list byte -> list byte -> list byte :=
@@ -103,6 +112,48 @@ Definition hdr_eqb (a : hdr_t) (h : qhdr) (off : N) : bool :=
   let '(v, d, s, t, l, o) := a in
   (h_version h =? v) && bytes_eqb (h_dcid h) d && bytes_eqb (h_scid h) s &&
   bytes_eqb (h_token h) t && (h_length h =? l) && (off =? o).
+
+(* cut `sent` into the chunks the target's Write calls carried *)
+Fixpoint carve_w (sent : list byte) (ws : list N) : list (list byte) :=
+  match ws with
+  | [] => []
+  | w :: t => firstn (N.to_nat w) sent :: carve_w (skipn (N.to_nat w) sent) t
+  end.
+
+(* the run of the hooked path that produces these Write calls: the first one is the direct write of the putback (if
+   there is one), every later one a chunk of the Up loop (Read of exactly that chunk, its LogTraffic with a logger, the
+   Write), then the client's EOF, the return of nil and the teardown *)
+Definition srv_trace (logged : bool) (put : list byte) (chunks : list (list byte)) : list P.hact :=
+  let up a := P.HARel (R.ALoop R.Up a) in
+  let loop c := [up (R.LRead ParamsC06.CopyBufSize c R.EN)] ++
+                (if logged then [up (R.LLog (R.blen c) 0 true)] else []) ++
+                [up (R.LWrite c (Z.of_N (R.blen c)) R.EN)] in
+  let '(pw, rest) := match put, chunks with
+                     | [], _ => ([], chunks)
+                     | _, c :: t => ([P.HAPutWrite c (Z.of_N (R.blen c)) R.EN], t)
+                     | _, [] => ([], [])
+                     end in
+  [P.HAReadReq true; P.HACheck true; P.HAWriteResp P.HookEnabled; P.HAHook (Some put); P.HADial true] ++ pw ++
+  flat_map loop rest ++
+  [up (R.LRead ParamsC06.CopyBufSize [] R.EEOF); up (R.LReturn R.GNil); P.HARel (R.AFirstReturn R.GNil);
+   P.HARel R.ACloseTarget; P.HARel R.ACloseStream].
+
+Definition check_srv (logged : bool) (sent : list byte) (putn : N) (writes uplogs : list N) (stx gotn : N) (gotdg : option N) : bool :=
+  let put := sub sent 0 putn in
+  let chunks := carve_w sent writes in
+  let tr := srv_trace logged put chunks in
+  match P.hexec (P.hinit (if logged then R.Logged else R.Fast)) tr with
+  | None => false
+  | Some s =>
+      let tgt := P.htarget tr in
+      (match R.par (P.hin s) with R.QDone => true | _ => false end) &&
+      (N.of_nat (length tgt) =? gotn) &&
+      (match gotdg with Some dg => digest tgt =? dg | None => bytes_eqb tgt (sub sent 0 gotn) end) &&
+      (if logged
+       then (P.hstats_tx s =? stx) &&
+            N_list_eqb uplogs (match put with [] => writes | _ => tl writes end)
+       else true)
+  end.
 
 Fixpoint check (c : case) : bool :=
   match c with
@@ -150,6 +201,7 @@ Fixpoint check (c : case) : bool :=
        end) &&
       Bool.eqb (sniff_check is_ip_f atoi_f rw tcp udp isudp addr) exp
   | CSeq l => forallb check l
+  | CSrv logged sent putn writes uplogs stx gotn gotdg => check_srv logged sent putn writes uplogs stx gotn gotdg
   end.
 
 Definition mismatches (l : list case) : list nat := mism_from check 0 l.
